@@ -118,7 +118,7 @@ def run(ctx):
     if ctx.thorough:
         ok, out = K.leanchecker(ctx, ["Hv.Props.C01", "Hv.Storage.WriterLemmas", "Hv.Storage.ReaderLemmas", "Hv.Storage.FormatLemmas",
                                       "Hv.Storage.SpecLemmas", "Hv.Storage.OverflowLemmas", "Hv.Storage.CompactLemmas",
-                                      "Hv.Storage.ChronWrite", "Hv.Storage.BlockAssumptions", "Hv.Storage.Bytes"])
+                                      "Hv.Storage.ChronWrite", "Hv.Storage.BlockAssumptions", "Hv.Storage.BlockView", "Hv.Storage.Bytes"])
         ctx.cov["leanchecker"] = "ok" if ok else out[-500:]
         if not ok:
             ctx.violation("leanchecker rejected the compiled proofs", {"log": out[-2000:]}, tag="leanchecker", found_input=False)
